@@ -28,28 +28,36 @@ MANIFEST = dict(
         "the same for the state the solver reports; config_independence(_box) -- two runs of any configuration (shrinking, "
         "cache, precomputation, warm start) that both report AccuracyReached differ in dual objective by at most eps*sum(U-L) "
         "(explicit constant; the oracle tests against 2*eps*sum(U-L)); bias_in_kkt_interval_partial -- the value returned by "
-        "the model of computeBias (free-variable mean, else midpoint of the two bounds) satisfies g_i - b <= eps for i not at "
-        "the upper and b - g_j <= eps for j not at the lower bound, for non-degenerate boxes and gradients inside the C++ "
-        "sentinel range [-1e100,1e100] (bias_degenerate_box_witness, bias_sentinel_witness outside); unpermute_correct -- "
-        "getUnpermutedAlpha inverts every injective accumulated permutation. "
-        "Tie: the Float instance of the trainer model (problem set-up, solver loop, un-permutation, computeBias) equals the real "
-        "CSvmTrainer bit-for-bit (coefficients, bias, stop reason, iteration count) on integer-point data with the linear "
-        "kernel; an independent trainer-level oracle (own kernel matrix; box, equality constraint, KKT(eps), bias interval, "
-        "reported objective) runs over the configuration cross bias x shrinking x precomputed/cache sizes x C x eps x "
-        "{linear, Gaussian} and compares the objectives across configurations against 2*eps*sum(U-L)."),
+        "the model of computeBias (free-variable mean, else midpoint of the two bounds; variables with an empty box interior "
+        "skipped) satisfies g_i - b <= eps for i not at the upper and b - g_j <= eps for j not at the lower bound, for gradients "
+        "inside the C++ sentinel range [-1e100,1e100] (bias_sentinel_witness outside; bias_degenerate_box_instance_repaired); "
+        "unpermute_correct -- getUnpermutedAlpha inverts every injective accumulated permutation. "
+        "Tie: the Float instance of the trainer model (problem set-ups of CSvmTrainer with one or class-specific C and "
+        "per-example weights, cold and warm start incl. clipping and re-balancing, of EpsilonSvmTrainer (2n-variable block "
+        "problem, offset loop) and of OneClassSvmTrainer (alpha = 1/n start, offset loop); solver loop; un-permutation; "
+        "computeBias) equals the real trainers bit-for-bit (coefficients, bias, stop reason, iteration count) on integer-point "
+        "data with the linear kernel, across precomputed / cached kernel and cache sizes; an independent trainer-level oracle "
+        "(own kernel matrix; box, equality constraint incl. sum = 1 for one-class, KKT(eps), bias interval, reported objective) "
+        "runs over the configuration cross trainer kind x bias x shrinking x precomputed/cache sizes x one/class-specific C x "
+        "weighted/unweighted x cold/warm x C x eps x {linear, Gaussian} and compares the objectives across configurations "
+        "against 2*eps*sum(U-L)."),
   note=TRUST + "Hypotheses carried by the theorems: PSD-ness and symmetry of the kernel matrix (kkt_eps_near_optimal, config_independence); "
-       "the C08 state invariant (proved for every solver history in Props/C08.lean: reachable_inv); bias_in_kkt_interval is "
-       "_partial (degenerate boxes L=U, e.g. an example weight of 0, and |gradient| > 1e100 are accepted by the C++ and break "
-       "it: witness theorems). NOT proved: that the solver reaches the accuracy (termination); epsilon-regression and one-class "
-       "trainers, class-specific / per-example C and warm starts are not covered at trainer level (their problem classes are "
-       "those of C08 and the optimality theorems apply to any box/linear term); Gaussian kernels only through the toleranced oracle.",
-  technique="Lean 4 proof on a solver/trainer model + differential correspondence with the C++ trainer (bit-for-bit on exact data) + independent KKT oracle",
+       "the C08 state invariant (proved for every admissible solver history in Props/C08.lean: reachable_inv); bias_in_kkt_interval "
+       "is _partial (|gradient| > 1e100 is accepted by the C++ and breaks it: witness theorem). The theorems on the bias are about "
+       "CSvmTrainer::computeBias; the offset loops of EpsilonSvmTrainer / OneClassSvmTrainer are modelled and tied bit-for-bit and "
+       "checked by the oracle, not proved. NOT proved: that the solver reaches the accuracy (termination); Gaussian kernels only "
+       "through the toleranced oracle. Found by this check and repaired in /repo (fix: commits, known_findings.json `fixed`): "
+       "F-C07-1..6 (EpsilonSvmTrainer offset, warm-start clipping x2, float warm-start gradient, zero-weight bias, weighted "
+       "warm start without bias throws).",
+  technique="Lean 4 proof on a solver/trainer model + differential correspondence with the C++ trainers (bit-for-bit on exact data) + independent KKT oracle",
   design="§6 C07")
 
 FINISH = dict(level="proof",
               rule="data sets: n in 2..14 integer points in dimension 1..3 (duplicates, separable and not, unbalanced classes), "
-                   "C on a dyadic grid 2^-3..2^6, eps in {1e-3, 2^-10, 2^-4, 2^-16}; configuration cross bias x shrinking x "
-                   "precomputed/cache size x kernel {linear, rbf}; non-trivial = solver ran at least 2 iterations; distinct = distinct op text")
+                   "C on a dyadic grid 2^-3..2^6 (one or class-specific), example weights in {0, 1/4, 1/2, 1, 2}, regression labels "
+                   "half-integers, tube in {1/8, 1/2, 1, 2}, nu in {1/8..3/4}, eps in {1e-3, 2^-10, 2^-4, 2^-16}; configuration cross "
+                   "trainer kind x bias x shrinking x precomputed/cache size x weighted x cold/warm x kernel {linear, rbf}; "
+                   "non-trivial = solver ran at least 2 iterations; distinct = distinct op text")
 
 LAKE_TARGETS = ["SharkVerif.Props.C07", "drv_c07"]
 PID = "C07"
@@ -143,10 +151,15 @@ def run(ctx):
         kind = r.choice(["csvm2", "csvm2", "esvr", "esvr", "ocsvm"])
         if kind == "csvm2":
             bias = r.below(2)
-            Cn, Cp = 2.0 ** r.range(-3, 6), 2.0 ** r.range(-3, 6)
-            ws = [r.choice([1.0, 1.0, 0.5, 2.0, 0.25, 0.0]) if r.chance(1, 2) else 1.0 for _ in range(n)]
-            cases.append([f"csvm2 {bias} {shrink} {tok(Cn)} {tok(Cp)} {tok(eps)} {maxit} {n} {d} {pts} " +
-                          " ".join(str(y) for y in ys) + " " + " ".join(tok(w) for w in ws)])
+            Cn = 2.0 ** r.range(-3, 6)
+            Cp = Cn if r.chance(1, 3) else 2.0 ** r.range(-3, 6)          # one C / class-specific C
+            weighted = r.below(2)
+            ws = [r.choice([1.0, 1.0, 0.5, 2.0, 0.25, 0.0]) if weighted and r.chance(1, 2) else 1.0 for _ in range(n)]
+            pre, cache = r.choice([(1, 0), (0, 0), (0, 2 * n), (0, 3 * n + 1)])   # the model has no cache: all must agree with it
+            warmit, warmfac = (0, 1.0) if r.chance(1, 2) else (r.choice([1, 3, 10, 100000]), r.choice([1.0, 4.0, 0.25]))
+            cases.append([f"csvm2 {bias} {shrink} {pre} {cache} {weighted} {tok(Cn)} {tok(Cp)} {tok(eps)} {maxit} {warmit} {tok(warmfac)} "
+                          f"{n} {d} {pts} " + " ".join(str(y) for y in ys) + " " + " ".join(tok(w) for w in ws)])
+            ctx.hist("csvm2_config", f"pre={pre} weighted={weighted} classC={int(Cn != Cp)} warm={int(warmit > 0)}")
         elif kind == "esvr":
             C = 2.0 ** r.range(-3, 6)
             tube = r.choice([0.125, 0.5, 1.0, 2.0])
